@@ -4,7 +4,10 @@
 (* data.  The contract (Doc) as tables over (value's variant, accessor's   *)
 (* variant); the real derives are replayed against it.                     *)
 (* variant = [k : "unit" | "tuple" | "named", tys : Seq({"A","B"}),        *)
-(*            ign : BOOLEAN]                                               *)
+(*            ign : BOOLEAN, fign : Seq(BOOLEAN)]                          *)
+(* ign  = the variant carries #[<derive>(ignore)] (all four derives);      *)
+(* fign = per field, #[try_into(ignore)] (only TryInto has field-level     *)
+(*        ignores: the field is matched but not part of the target tuple). *)
 (***************************************************************************)
 EXTENDS Naturals, Sequences, FiniteSets, TLC
 
@@ -14,9 +17,12 @@ Live(vs) == {i \in 1..Len(vs) : ~vs[i].ign}
 DocIs(vs, a, x) == a = x
 \* unwrap_x / try_unwrap_x on a value of variant a: the fields of X in order iff a = x
 DocUnwrap(vs, a, x) == IF a = x THEN <<"ok", vs[x].tys>> ELSE <<"fail">>
-\* TryFrom<Enum> for the tuple type T: succeeds exactly for the live variants whose field types are T
-TargetTypes(vs) == {vs[i].tys : i \in Live(vs)}
-DocTryInto(vs, a, T) == IF ~vs[a].ign /\ vs[a].tys = T THEN <<"ok", T>> ELSE <<"fail">>
+\* TryFrom<Enum> for the tuple type T: succeeds exactly for the live variants whose NON-IGNORED field types are T,
+\* and yields those fields (by position, in declaration order)
+LiveIdx(v)  == SelectSeq([j \in 1..Len(v.tys) |-> j], LAMBDA j : ~v.fign[j])
+LiveTys(v)  == [n \in 1..Len(LiveIdx(v)) |-> v.tys[LiveIdx(v)[n]]]
+TargetTypes(vs) == {LiveTys(vs[i]) : i \in Live(vs)}
+DocTryInto(vs, a, T) == IF ~vs[a].ign /\ LiveTys(vs[a]) = T THEN <<"ok", LiveIdx(vs[a])>> ELSE <<"fail">>
 
 \* laws of the contract
 Partition(vs) == \A a \in 1..Len(vs) : ~vs[a].ign =>
